@@ -8,6 +8,7 @@ import (
 	"strings"
 	"sync"
 	"sync/atomic"
+	"time"
 
 	"verif/kit"
 
@@ -271,6 +272,10 @@ func (x *run) exec(o Op) {
 		if x.R.P != nil {
 			x.R.CloseProvider()
 		}
+	case "idle":
+		// nothing: gives goroutines godi has started (context watchers) time to run while another
+		// thread is parked; only decides which interleaving is realised, never a verdict
+		time.Sleep(15 * time.Millisecond)
 	case "batch":
 		var wg sync.WaitGroup
 		start := make(chan struct{})
